@@ -41,7 +41,7 @@ fn pick_pos(rng: &mut Rng, n: usize) -> u64 {
 }
 
 pub fn run(args: &Args) -> Report {
-    let total = args.n(8000, 300_000);
+    let total = args.n(20_000, 3_000_000);
     let plats = args.platforms_or(&[P::Native, P::Portable, P::Sse2, P::Sse41, P::Avx2, P::Avx512]);
     let guard = args.get("guard") == Some("1");
     run::run_cases(args, 3, total, |idx, rng, rep| {
